@@ -35,6 +35,89 @@ impl SegmentIndexTree {
             .insert(offset, entry);
     }
 
+    pub fn remove_uid(&mut self, level: u32, offset: u32, uid: &str) -> (r: Option<SegmentEntry>)
+     ensures
+         forall|l: u32, o: u32| !(l == level && o == offset) ==> slot(tview(final(self).by_level), l, o) == slot(tview(old(self).by_level), l, o), // OBL:C11.index_tree.remove_uid.no_other_entry_changes
+         slot(tview(old(self).by_level), level, offset) is None ==> r is None && slot(tview(final(self).by_level), level, offset) is None, // OBL:C11.index_tree.remove_uid.absent_entry_is_a_no_op
+         slot(tview(old(self).by_level), level, offset) is Some ==> ({
+             let e = slot(tview(old(self).by_level), level, offset)->Some_0;
+             let rest = without(e.uids@, uid);
+             if rest.len() != e.uids@.len() && rest.len() == 0 {
+                 slot(tview(final(self).by_level), level, offset) is None && r is Some && r->Some_0.id == e.id && r->Some_0.uids@ == rest
+             } else {
+                 r is None && slot(tview(final(self).by_level), level, offset) is Some
+                     && slot(tview(final(self).by_level), level, offset)->Some_0.id == e.id
+                     && slot(tview(final(self).by_level), level, offset)->Some_0.uids@ == rest
+             }
+         }), // OBL:C11.index_tree.remove_uid.entry_leaves_the_index_only_with_its_last_uid
+{
+        let mut removed_entry = None;
+        let should_remove_level = {
+            let level_map = match self.by_level.get_mut(&level) {
+                Some(map) => map,
+                None => {
+                    if false {
+                        ();
+                    }
+                    return None;
+                }
+            };
+
+            let mut remove_offset = false;
+             let ghost lm0 = lview(*level_map);
+             assert(lm0 == lview(tview(old(self).by_level)[level]));
+            if let Some(entry) = level_map.get_mut(&offset) {
+                let before_uids = entry.uids.clone();
+                let before_count = entry.uids.len();
+                retain_other(&mut entry.uids, uid);
+                let after_count = entry.uids.len();
+
+                if false {
+                    ();
+                }
+
+                if before_count != after_count && entry.uids.is_empty() {
+                    remove_offset = true;
+                    if false {
+                        ();
+                    }
+                }
+            } else {
+                if false {
+                    ();
+                }
+                return None;
+            }
+
+            if remove_offset {
+                removed_entry = level_map.remove(&offset);
+            }
+             let ghost lm_final = lview(*level_map);
+             assert(forall|o: u32| o != offset ==> (lm_final.contains_key(o) == lm0.contains_key(o)) && (lm_final.contains_key(o) ==> lm_final[o] == lm0[o]));
+             let ghost e0 = lm0[offset];
+             let ghost rest = without(e0.uids@, uid);
+             assert(lm0.contains_key(offset));
+             if remove_offset {
+                 assert(!lm_final.contains_key(offset));
+                 assert(removed_entry is Some && removed_entry->Some_0.id == e0.id && removed_entry->Some_0.uids@ == rest);
+             } else {
+                 assert(lm_final.contains_key(offset) && lm_final[offset].id == e0.id && lm_final[offset].uids@ == rest);
+                 assert(removed_entry is None);
+             }
+
+            level_map.is_empty()
+        };
+
+        if should_remove_level {
+            self.by_level.remove(&level);
+            if false {
+                ();
+            }
+        }
+
+        removed_entry
+    }
+
 }
 
 // ---- spec functions and lemmas from the contract file ----
@@ -73,6 +156,40 @@ impl BTreeMap<u32, SegmentEntry> {
         ensures lview(*final(self)) == lview(*old(self)).insert(k, v)
     { unimplemented!() }
 }
+impl BTreeMap<u32, BTreeMap<u32, SegmentEntry>> {
+    #[verifier::external_body]
+    pub fn get_mut(&mut self, k: &u32) -> (r: Option<&mut BTreeMap<u32, SegmentEntry>>)
+        ensures r is Some == tview(*old(self)).contains_key(*k),
+            r is Some ==> *(r->Some_0) == tview(*old(self))[*k] && tview(*final(self)) == tview(*old(self)).insert(*k, *final(r->Some_0)),
+            r is None ==> tview(*final(self)) == tview(*old(self)),
+    { unimplemented!() }
+    #[verifier::external_body]
+    pub fn remove(&mut self, k: &u32) -> (r: Option<BTreeMap<u32, SegmentEntry>>)
+        ensures tview(*final(self)) == tview(*old(self)).remove(*k)
+    { unimplemented!() }
+}
+impl BTreeMap<u32, SegmentEntry> {
+    #[verifier::external_body]
+    pub fn get_mut(&mut self, k: &u32) -> (r: Option<&mut SegmentEntry>)
+        ensures r is Some == lview(*old(self)).contains_key(*k),
+            r is Some ==> *(r->Some_0) == lview(*old(self))[*k] && lview(*final(self)) == lview(*old(self)).insert(*k, *final(r->Some_0)),
+            r is None ==> lview(*final(self)) == lview(*old(self)),
+    { unimplemented!() }
+    #[verifier::external_body]
+    pub fn remove(&mut self, k: &u32) -> (r: Option<SegmentEntry>)
+        ensures lview(*final(self)) == lview(*old(self)).remove(*k),
+            r == (if lview(*old(self)).contains_key(*k) { Some(lview(*old(self))[*k]) } else { None::<SegmentEntry> }),
+    { unimplemented!() }
+    #[verifier::external_body]
+    pub fn is_empty(&self) -> (r: bool) ensures r == (forall|k: u32| !lview(*self).contains_key(k)) { unimplemented!() }
+}
+pub uninterp spec fn without(uids: Seq<String>, uid: &str) -> Seq<String>;
+/// E6: stands for `entry.uids.retain(|existing| existing != uid)`
+#[verifier::external_body]
+pub fn retain_other(uids: &mut Vec<String>, uid: &str)
+    ensures final(uids)@ == without(old(uids)@, uid), final(uids)@.len() <= old(uids)@.len()
+{ unimplemented!() }
+
 impl SegmentEntry {
     /// contract of the real SegmentEntry::level (SegmentId::from(id).level()), proved for all ids by Kani unit c11_segment_ids
     #[verifier::external_body]
